@@ -17,6 +17,7 @@ import (
 	"io"
 	"math/rand"
 	"net/netip"
+	"os"
 	"sort"
 	"strings"
 	"sync"
@@ -1431,8 +1432,13 @@ func (p *vfQsPair) step() {
 	}
 	d, ok := p.net.take()
 	if !ok {
-		// nothing in flight: let timers (ack delay, loss, PTO) fire
-		time.Sleep(time.Duration(5+p.rnd.Intn(60)) * time.Millisecond)
+		// nothing in flight: advance the clock to the next timer of either conn (ack delay,
+		// loss detection, PTO with its back-off, idle timeout)
+		wait := time.Duration(5+p.rnd.Intn(60)) * time.Millisecond
+		if next := p.nextTimer(); !next.IsZero() {
+			wait = min(max(time.Until(next), time.Millisecond), 2*time.Second)
+		}
+		time.Sleep(wait)
 		synctest.Wait()
 		return
 	}
@@ -1537,6 +1543,48 @@ func (p *vfQsPair) app() bool {
 	return true
 }
 
+// dump prints the white-box state of both conns (debugging aid, VERIF_QS_DEBUG=1).
+func (p *vfQsPair) dump(t *testing.T) {
+	for i, c := range p.conns {
+		c.runOnLoop(context.Background(), func(now time.Time, c *Conn) {
+			lim, _ := c.loss.sendLimit(now)
+			t.Logf("conn %d: state=%v out.max=%d out.used=%d in.sent=%d in.used=%d in.new=%d credit=%d inflow.sent=%x cc=%v inflight=%d cwnd=%d pto=%v timer=%v now=%v needSend=%v",
+				i, c.lifetime.state, c.streams.outflow.max, c.streams.outflow.used, c.streams.inflow.sentLimit, c.streams.inflow.usedLimit,
+				c.streams.inflow.newLimit, c.streams.inflow.credit.Load(), uint64(c.streams.inflow.sent), lim, c.loss.cc.bytesInFlight, c.loss.cc.congestionWindow,
+				c.loss.ptoTimerArmed, c.loss.timer, now, c.streams.needSend.Load())
+			for id, ms := range c.streams.streams {
+				s := ms.s
+				if s == nil {
+					continue
+				}
+				t.Logf("  stream %d: out[start=%d end=%d flushed=%d win=%d maxsent=%d unsent=%v acked=%v blocked=%x closed=%x] in[start=%d end=%d win=%d maxbuf=%d size=%d set=%v sendmax=%x inbuf=%d/%d] state=%b",
+					id, s.out.start, s.out.end, s.outflushed, s.outwin, s.outmaxsent, s.outunsent, s.outacked, uint64(s.outblocked), uint64(s.outclosed),
+					s.in.start, s.in.end, s.inwin, s.inmaxbuf, s.insize, s.inset, uint64(s.insendmax), s.inbufoff, len(s.inbuf), s.state.load())
+			}
+		})
+	}
+}
+
+// nextTimer returns the earliest pending timer of the two conns (zero: none / not connected yet).
+func (p *vfQsPair) nextTimer() time.Time {
+	var best time.Time
+	for _, c := range p.conns {
+		if c == nil {
+			return time.Time{}
+		}
+		nextc := make(chan time.Time, 1)
+		c.sendMsg(func(now, next time.Time, c *Conn) { nextc <- next })
+		select {
+		case next := <-nextc:
+			if !next.IsZero() && (best.IsZero() || next.Before(best)) {
+				best = next
+			}
+		case <-c.donec:
+		}
+	}
+	return best
+}
+
 func (p *vfQsPair) handled() int { return p.stats[0] + p.stats[1] + p.stats[2] + p.stats[3] }
 
 // closeAll closes every channel that is still open for writing and reports whether everything
@@ -1600,7 +1648,10 @@ func vfQsPairTrace(t *testing.T, env *vfEnv, trace int, rnd *rand.Rand, nops int
 		net.ends[i] = &vfQsNetConn{net: net, idx: i, addr: netip.MustParseAddrPort([]string{"127.0.0.1:443", "127.0.0.1:1234"}[i]),
 			in: make(chan []byte), closed: make(chan struct{})}
 		cfgs[i] = &Config{TLSConfig: newTestTLSConfig(side), MaxStreamReadBufferSize: pickv(), MaxStreamWriteBufferSize: pickv(),
-			MaxConnReadBufferSize: pickv()}
+			MaxConnReadBufferSize: pickv(),
+			// the script lets the clock jump from timer to timer: an application that is merely
+			// slow must not run into the idle timeout
+			MaxIdleTimeout: time.Hour}
 		lc := cfgs[i]
 		if i == 1 {
 			lc = nil
@@ -1673,10 +1724,14 @@ func vfQsPairTrace(t *testing.T, env *vfEnv, trace int, rnd *rand.Rand, nops int
 	}
 	// streams: created by either side, bidirectional ones carry data both ways
 	nstreams := 1 + rnd.Intn(3)
+	lockstep := trace%4 == 0
+	if lockstep {
+		nstreams = 1
+	}
 	for k := 0; k < nstreams; k++ {
 		side := rnd.Intn(2)
 		var s *Stream
-		bidi := rnd.Intn(2) == 0
+		bidi := rnd.Intn(2) == 0 || lockstep
 		if bidi {
 			s, err = p.conns[side].NewStream(context.Background())
 		} else {
@@ -1699,7 +1754,40 @@ func vfQsPairTrace(t *testing.T, env *vfEnv, trace int, rnd *rand.Rand, nops int
 	}
 	p.emit(map[string]any{"e": "hdr", "nch": len(p.chans)})
 	p.fault = true
-	for i := 0; i < nops; i++ {
+	if lockstep {
+		// both sides keep sending small flushed writes: their packet numbers advance together
+		for i := 0; i < 130; i++ {
+			for _, ch := range p.chans {
+				if ch.w == nil || ch.call != nil {
+					continue
+				}
+				n := 1 + rnd.Intn(20)
+				b := make([]byte, n)
+				for j := range b {
+					b[j] = vfQsPat(ch.c, ch.wr+int64(j))
+				}
+				c := &vfQsPCall{op: "write", ch: ch, donec: make(chan struct{})}
+				p.calls = append(p.calls, c)
+				ch.call = c
+				p.emit(map[string]any{"e": "w_call", "c": ch.c, "n": n})
+				w := ch.w
+				go func() {
+					defer close(c.donec)
+					c.res, c.err = w.Write(b)
+				}()
+				p.poll()
+				if ch.call == nil {
+					err := ch.w.Flush()
+					p.emit(map[string]any{"e": "w_flush", "c": ch.c, "ok": err == nil})
+				}
+			}
+			for j := 0; j < 2+rnd.Intn(3); j++ {
+				p.step()
+				p.poll()
+			}
+		}
+	}
+	for i := 0; i < nops && !lockstep; i++ {
 		if rnd.Intn(100) < 40 {
 			p.app()
 		} else {
@@ -1733,7 +1821,22 @@ func vfQsPairTrace(t *testing.T, env *vfEnv, trace int, rnd *rand.Rand, nops int
 			pending++
 		}
 	}
-	p.emit(map[string]any{"e": "final", "pending": pending,
+	if pending > 0 && os.Getenv("VERIF_QS_DEBUG") != "" {
+		p.dump(t)
+	}
+	// white box, only meaningful when something is stuck: the 1-RTT key update state of both
+	// conns [updating, packets that failed authentication]
+	keys := [][]int{}
+	for _, c := range p.conns {
+		c.runOnLoop(context.Background(), func(now time.Time, c *Conn) {
+			u := 0
+			if c.keysAppData.updating {
+				u = 1
+			}
+			keys = append(keys, []int{u, int(min(c.keysAppData.authFailures, 1<<20))})
+		})
+	}
+	p.emit(map[string]any{"e": "final", "pending": pending, "keys": keys,
 		"net": map[string]any{"delivered": p.stats[0], "dropped": p.stats[1], "duplicated": p.stats[2], "held": p.stats[3]}})
 }
 
